@@ -57,6 +57,21 @@ def budgets(tier: str) -> dict:
 
 
 def enumerate_cases(tier: str):
+    # the body leaves with every exception class of the library (and some others): the exit duties do not depend on which
+    for kind in KINDS:
+        for name in BODY_EXCS:
+            for k in (0, 9):
+                yield {"kind": kind, "fault": "body", "file": "registry", "k": k, "T": None, "mutate": True, "body_exc": name}
+            yield {"kind": kind, "fault": "body", "file": "registry", "k": 2, "T": 901, "mutate": True, "body_exc": name}
+    # a second gateway in the same loop keeps saving on schedule whatever happens to this one
+    for kind in KINDS:
+        for fault in FAULTS:
+            if not kind.startswith("plain") and ("disconnect" in fault or fault == "connect-timeout"):
+                continue
+            if kind == "plain-nosuspend" and fault == "connect-timeout":
+                continue
+            for k, T in ((0, None), (9, None), (2, 901)):
+                yield {"kind": kind, "fault": fault, "file": "registry", "k": k, "T": T, "mutate": True, "bystander": True}
     for kind, fault, initial in itertools.product(KINDS, FAULTS, FILES):
         if kind == "plain-nosuspend" and fault == "connect-timeout":
             continue
@@ -95,12 +110,45 @@ def strategy(tier: str):
             "mutate": st.sampled_from((True, False, "in-place", "churn")),
             "reenter": st.booleans(),
             "prefill": st.sampled_from((False, False, True)),
+            "body_exc": st.sampled_from(BODY_EXCS),
+            "bystander": st.sampled_from((False, False, True)),
         }
     ).filter(lambda c: c["kind"] == "plain" or (c["kind"] == "plain-nosuspend" and c["fault"] != "connect-timeout") or ("disconnect" not in c["fault"] and c["fault"] != "connect-timeout"))
 
 
 class BodyError(Exception):
     """Raised by the harness body."""
+
+
+def _library_errors() -> list[type]:
+    from aiomysensors.exceptions import AIOMySensorsError
+
+    out, todo = [], [AIOMySensorsError]
+    while todo:
+        cls = todo.pop()
+        if cls not in out:
+            out.append(cls)
+            todo.extend(cls.__subclasses__())
+    return sorted(out, key=lambda c: c.__name__)
+
+
+BODY_EXCS = ("BodyError", "OSError", "ConnectionResetError", "RuntimeError", "KeyError", "TimeoutError", "KeyboardInterrupt", "SystemExit") + tuple(
+    c.__name__ for c in _library_errors()
+)
+
+
+def _make_exc(name: str) -> BaseException:
+    import builtins
+
+    cls = BodyError if name == "BodyError" else getattr(builtins, name, None)
+    if cls is None:
+        cls = next((c for c in _library_errors() if c.__name__ == name), BodyError)
+    for args in (("body failed",), ("body failed", "second"), (), (OSError("inner"), b"partial"), ("a", "b", "c")):
+        try:
+            return cls(*args)
+        except TypeError:
+            continue
+    return BodyError("body failed")
 
 
 class PlainTransport(env.RecordingTransport):
@@ -193,7 +241,41 @@ def run_case(case: dict) -> Outcome:
     def registry_doc(gateway: Gateway) -> dict:
         return json.loads(json.dumps(env.snapshot(gateway.nodes)))
 
+    ignore_tasks: set = set()
+
     async def main() -> Outcome | None:
+        if not case.get("bystander"):
+            return await main_a()
+        # another gateway with its own file lives in the same event loop (say serial + MQTT in one controller)
+        path_b = os.path.join(scratch, "bystander.json")
+        other = Gateway(PlainTransport("none"), Config(persistence_file=path_b))
+        other.nodes[70] = Node(70, 17, "2.0")
+        await other.__aenter__()
+        await asyncio.sleep(1)
+        ignore_tasks.update(t for t in asyncio.all_tasks() if t is not asyncio.current_task())
+        try:
+            bad = await main_a()
+            if bad is not None:
+                return bad
+            other.nodes[77] = Node(77, 17, "2.1")
+            await asyncio.sleep(901.5)
+            try:
+                with open(path_b, encoding="utf-8") as fil:
+                    doc = json.loads(fil.read() or "{}")
+            except (OSError, ValueError) as err:
+                doc = repr(err)
+            if doc != registry_doc(other):
+                return fail(f"bystander:periodic-save-stopped:{fault}", f"kind={kind} fault={fault}: another gateway in the same loop changed its registry; 901 s later its file holds {str(doc)[:160]!r}")
+        finally:
+            await other.__aexit__(None, None, None)
+        for _ in range(3):
+            await asyncio.sleep(0)
+        left = [t for t in asyncio.all_tasks() if t is not asyncio.current_task() and not t.done()]
+        if left:
+            return fail("bystander:task-left", f"tasks left after both gateways left their contexts: {left!r}")
+        return None
+
+    async def main_a() -> Outcome | None:
         loop = asyncio.get_running_loop()
         transport = _make_transport(kind, fault)
         gateway = Gateway(transport, Config(persistence_file=path))
@@ -261,7 +343,7 @@ def run_case(case: dict) -> Outcome:
                     me.cancel()
                     await asyncio.sleep(3600)
                 if "body" in fault:
-                    raise BodyError("body failed")
+                    raise _make_exc(case.get("body_exc", "BodyError"))
         except BaseException as err:  # noqa: BLE001
             caught = err
         if fault == "cancel-body" and isinstance(caught, asyncio.CancelledError):
@@ -270,7 +352,7 @@ def run_case(case: dict) -> Outcome:
             at_exit_doc = registry_doc(gateway)
         for _ in range(3):
             await asyncio.sleep(0)
-        leftover = [t for t in asyncio.all_tasks() if t is not me and not t.done()]
+        leftover = [t for t in asyncio.all_tasks() if t is not me and not t.done() and t not in ignore_tasks]
         phase = "never-entered" if not entered else ("after-timer" if T is not None else ("early-exit" if k < 8 else "late-exit"))
         where = f"kind={kind} fault={fault} file={initial} k={k} T={T}"
 
@@ -294,11 +376,12 @@ def run_case(case: dict) -> Outcome:
             return fail(f"exit:{phase}:CancelledError", f"{where}: CancelledError left 'async with' (the saver's cancellation leaked)")
         if fault == "none" and caught is not None:
             return fail(f"exit:{phase}:raised-{type(caught).__name__}", f"{where}: clean exit raised {caught!r}")
-        if fault == "body" and not isinstance(caught, BodyError):
-            return fail(f"exit:{phase}:body-error-replaced-by-{type(caught).__name__}", f"{where}: the body raised BodyError but {caught!r} left the context")
+        body_cls = type(_make_exc(case.get("body_exc", "BodyError")))
+        if fault == "body" and type(caught) is not body_cls:
+            return fail(f"exit:{phase}:body-error-replaced-by-{type(caught).__name__}", f"{where}: the body raised {body_cls.__name__} but {caught!r} left the context")
         if fault == "disconnect" and not isinstance(caught, TransportError):
             return fail(f"exit:{phase}:disconnect-error-became-{type(caught).__name__}", f"{where}: disconnect raised TransportFailedError but {caught!r} left the context")
-        if fault == "body+disconnect" and not isinstance(caught, (BodyError, TransportError)):
+        if fault == "body+disconnect" and not isinstance(caught, (body_cls, TransportError)):
             return fail(f"exit:{phase}:raised-{type(caught).__name__}", f"{where}: {caught!r} left the context")
         if isinstance(caught, Deadlock):
             return fail("exit:deadlock", f"{where}: the event loop has nothing left to run")
@@ -337,7 +420,7 @@ def run_case(case: dict) -> Outcome:
                 await asyncio.sleep(0)
             if caught2 is not None:
                 return fail(f"reenter:raised-{type(caught2).__name__}", f"{where}: entering the context a second time: {caught2!r}")
-            leftover = [t for t in asyncio.all_tasks() if t is not me and not t.done()]
+            leftover = [t for t in asyncio.all_tasks() if t is not me and not t.done() and t not in ignore_tasks]
             if leftover:
                 return fail("reenter:task-left", f"{where}: second session left tasks: {leftover!r}")
             if getattr(transport, "disconnected", 2) != 2:
